@@ -353,6 +353,7 @@ def parse_line(line):
             arts[int(n)] = v
     r['arts'] = arts
     r['net'] = [x for x in d['net'].split(';') if x]
+    r['dls'] = d.get('dls')          # download directory listing (None when the stream does not print it)
     return r
 
 
